@@ -59,5 +59,3 @@ pub open spec fn spec_header_offset<H>(reserved: int, unify: bool) -> int {
 pub open spec fn spec_data_offset<H>(reserved: int, unify: bool) -> int {
   if unify { spec_header_offset::<H>(reserved, true) + size_of::<H>() as int } else { reserved + 1 }
 }
-
-pub enum Error { InsufficientSpace { requested: u32, available: u32 }, ReadOnly, OutOfBounds { offset: usize, allocated: usize } }
